@@ -7,12 +7,12 @@ package main
 // written from their documentation (see libTransfer).
 
 import (
-	"unicode"
 	"fmt"
 	"go/constant"
 	"go/token"
 	"go/types"
 	"strings"
+	"unicode"
 
 	"golang.org/x/tools/go/ssa"
 )
@@ -502,6 +502,14 @@ func (f *folder) val(env map[ssa.Value]fval, v ssa.Value) fval {
 		return fval{k: x.Value, t: x.Type()}
 	case *ssa.Function:
 		return fval{fn: x, t: x.Type()}
+	case *ssa.Global:
+		// the address of an immutable package-level literal
+		if gv := f.c.globalTable(x); gv.known() {
+			if raw, ok := f.c.globalRaw[x]; ok && raw != nil {
+				return fval{cvptr: raw}
+			}
+		}
+		return top
 	}
 	if r, ok := env[v]; ok {
 		return r
@@ -738,7 +746,7 @@ func zeroFval(t types.Type) fval {
 // foldLookup: m[k] on an immutable map table with a constant key (also string indexing is left unknown).
 func foldLookup(x *ssa.Lookup, m, k fval) fval {
 	mv, ok := m.cv.(*MapV)
-	if !ok || k.k == nil {
+	if !ok || (k.k == nil && k.fields == nil) {
 		return top
 	}
 	mt, ok := x.X.Type().Underlying().(*types.Map)
@@ -747,12 +755,51 @@ func foldLookup(x *ssa.Lookup, m, k fval) fval {
 	}
 	var hit Val
 	for _, e := range mv.Entries {
-		ck, ok := e.K.(*CVal)
-		if !ok {
+		switch ck := e.K.(type) {
+		case *CVal:
+			if k.k == nil {
+				return top
+			}
+			if ck.V.Kind() == k.k.Kind() && constant.Compare(ck.V, token.EQL, k.k) {
+				hit = e.V
+			}
+		case *StructV:
+			// a struct key: every field of the literal must be a constant and the looked-up key must know all of them
+			if k.fields == nil {
+				return top
+			}
+			same := true
+			for fn, fv := range ck.Fields {
+				cv, ok := fv.(*CVal)
+				kv, has := k.fields[fn]
+				if !ok || !has || kv.k == nil || kv.k.Kind() != cv.V.Kind() {
+					return top
+				}
+				if !constant.Compare(cv.V, token.EQL, kv.k) {
+					same = false
+				}
+			}
+			// fields the literal leaves out are zero
+			if st, ok := mt.Key().Underlying().(*types.Struct); ok {
+				for i := 0; i < st.NumFields(); i++ {
+					n := st.Field(i).Name()
+					if _, given := ck.Fields[n]; !given {
+						kv, has := k.fields[n]
+						z := zeroFval(st.Field(i).Type())
+						if !has || kv.k == nil || z.k == nil {
+							return top
+						}
+						if !constant.Compare(z.k, token.EQL, kv.k) {
+							same = false
+						}
+					}
+				}
+			}
+			if same {
+				hit = e.V
+			}
+		default:
 			return top
-		}
-		if ck.V.Kind() == k.k.Kind() && constant.Compare(ck.V, token.EQL, k.k) {
-			hit = e.V
 		}
 	}
 	var v fval
@@ -812,6 +859,10 @@ func (c *Ctx) globalTable(g *ssa.Global) fval {
 					}
 					continue
 				}
+				// taking the address of a field / element only to read it
+				if av, ok := in.(ssa.Value); ok && readOnlyAddr(av, 0) {
+					continue
+				}
 				mutated = true
 			}
 		})
@@ -825,6 +876,10 @@ func (c *Ctx) globalTable(g *ssa.Global) fval {
 	}
 	r := fromVal(val)
 	c.globalTabs[g] = r
+	if c.globalRaw == nil {
+		c.globalRaw = map[*ssa.Global]Val{}
+	}
+	c.globalRaw[g] = val
 	return r
 }
 
@@ -839,4 +894,34 @@ func setFvalPath(cur fval, path []string, v fval) fval {
 	}
 	nf[path[0]] = setFvalPath(cur.fields[path[0]], path[1:], v)
 	return fval{fields: nf, t: cur.t}
+}
+
+
+// readOnlyAddr: the address (of a field or element) is only ever loaded from.
+func readOnlyAddr(a ssa.Value, depth int) bool {
+	switch a.(type) {
+	case *ssa.FieldAddr, *ssa.IndexAddr:
+	default:
+		return false
+	}
+	refs := a.Referrers()
+	if refs == nil || depth > 4 {
+		return false
+	}
+	for _, r := range *refs {
+		switch x := r.(type) {
+		case *ssa.UnOp:
+			if x.Op != token.MUL {
+				return false
+			}
+		case *ssa.FieldAddr, *ssa.IndexAddr:
+			if !readOnlyAddr(x.(ssa.Value), depth+1) {
+				return false
+			}
+		case *ssa.DebugRef:
+		default:
+			return false
+		}
+	}
+	return true
 }
